@@ -2,7 +2,6 @@ package rules
 
 import (
 	"fmt"
-	"go/types"
 	"sort"
 	"strings"
 
@@ -191,7 +190,7 @@ func (e *Env) c09FormTask() {
 	a := e.anchors()
 	fi := e.formatter()
 	obArm := func(k string) *core.Obligation {
-		return r.Ob("R3", "formatter:"+k, "a missing value for this placeholder type makes exit inevitable before the task is formed")
+		return r.Ob("R3", "formatter:"+k, "this condition makes exit inevitable before the task is formed")
 	}
 	if len(fi.problems) > 0 || fi.fn == nil {
 		obArm("anchors").Unknown("-", strings.Join(fi.problems, "; "))
@@ -203,57 +202,7 @@ func (e *Env) c09FormTask() {
 		obArm("anchors").Unknown("-", err.Error())
 		return
 	}
-	// arm blocks: label -> entry block of the arm
-	armOf := func(b *ssa.BasicBlock) string { l, _ := armLabel(b); return l }
-	want := map[string]bool{}
-	for l := range fi.arms {
-		if l != "?" {
-			want[l] = true
-		}
-	}
-	done := map[string]bool{}
-	for _, n := range g.Nodes {
-		if n.Ctx.Fn != fi.fn {
-			continue
-		}
-		lk, ok := n.Instr.(*ssa.Lookup)
-		if !ok {
-			continue
-		}
-		if _, isParam := lk.X.(*ssa.Parameter); !isParam {
-			continue
-		}
-		mt, ok := lk.X.Type().Underlying().(*types.Map)
-		if !ok {
-			continue
-		}
-		label := armOf(lk.Block())
-		if label == "?" || done[label] {
-			continue
-		}
-		var missing core.AV
-		switch mt.Elem().Underlying().(type) {
-		case *types.Pointer:
-			missing = core.NilAV()
-		case *types.Basic:
-			missing = core.StrAV("")
-		default:
-			continue
-		}
-		if lk.CommaOk {
-			missing = core.TupleAV(missing, core.BoolAV(false))
-		}
-		res := g.Run(core.Scenario{Start: n, Result: missing})
-		if res.NormalReturn() == nil {
-			done[label] = true
-			obArm(label).OK(g.Where(n), "missing "+lk.X.Name()+"[...] ⇒ exit")
-		}
-	}
-	for l := range want {
-		if !done[l] {
-			obArm(l).Fail(core.FuncName(fi.fn), "in the arm for placeholder type \""+l+"\" no map lookup of the value is guarded by a fatal check: a missing value yields a command with an empty or unreplaced placeholder")
-		}
-	}
+	e.formatterMissingRule("R3")
 	// unknown placeholder type
 	obDef := obArm("default")
 	nTag := 0
